@@ -200,17 +200,49 @@ pub fn run_state_case<T: Sc>(out: Option<&mut Out>, c: &StateCase<T>, fault: Opt
 }
 
 pub fn random_state_case<T: Sc>(rng: &mut Rng, thorough: bool, idx: usize) -> StateCase<T> {
-    let o = GenOpts {
+    // one case in eight has one LARGE dimension (size-threshold sub-streams): many right-hand sides,
+    // many samples, or many basis functions / parameters
+    let big = if idx % 8 == 5 { 1 + (idx / 8) % 3 } else { 0 };
+    let mut o = GenOpts {
         max_m: if thorough { 6 } else { 4 },
         max_p: if thorough { 5 } else { 3 },
         max_n: if thorough { 40 } else { 12 },
         max_s: if thorough { 6 } else { 4 },
         allow_dup: false,
         smooth_only: false,
+        fixed_n: None,
     };
+    match big {
+        1 => {
+            o.max_m = 3;
+            o.max_p = 2;
+            o.max_n = 10;
+        }
+        2 => {
+            o.max_m = 3;
+            o.max_p = 3;
+            o.fixed_n = Some(big_size(rng, thorough));
+        }
+        3 => {
+            o.max_m = if thorough { 12 } else { 9 };
+            o.max_p = if thorough { 10 } else { 8 };
+            o.fixed_n = Some(rng.range(40, 48));
+        }
+        _ => {}
+    }
     let recipe = random_recipe(rng, &o);
-    let flavour = *rng.pick(&[Flavour::New, Flavour::Mrhs, Flavour::New, Flavour::Mrhs, Flavour::NewPar, Flavour::MrhsPar]);
-    let s = if flavour.is_mrhs() { rng.range(1, o.max_s) } else { 1 };
+    let flavour = if big == 1 {
+        *rng.pick(&[Flavour::Mrhs, Flavour::Mrhs, Flavour::MrhsPar])
+    } else {
+        *rng.pick(&[Flavour::New, Flavour::Mrhs, Flavour::New, Flavour::Mrhs, Flavour::NewPar, Flavour::MrhsPar])
+    };
+    let s = if big == 1 {
+        big_size(rng, thorough)
+    } else if flavour.is_mrhs() {
+        rng.range(1, o.max_s)
+    } else {
+        1
+    };
     let exact = idx % 10 < 2;
     let y = random_data::<T>(rng, &recipe, s, exact);
     let wkind = WKINDS[idx % WKINDS.len()];
@@ -221,7 +253,7 @@ pub fn random_state_case<T: Sc>(rng: &mut Rng, thorough: bool, idx: usize) -> St
         _ => None,
     };
     let init: Vec<T> = random_alpha(rng, recipe.p()).iter().map(|v| T::of(*v)).collect();
-    let nh = rng.range(1, 6);
+    let nh = if big != 0 { rng.range(1, 2) } else { rng.range(1, 6) };
     let mut history: Vec<Vec<T>> = Vec::new();
     for h in 0..nh {
         let a: Vec<T> = match rng.below(6) {
@@ -242,7 +274,7 @@ pub fn random_state_case<T: Sc>(rng: &mut Rng, thorough: bool, idx: usize) -> St
         eps,
         init,
         history,
-        origin: "random",
+        origin: ["random", "bigS", "bigN", "bigMP"][big],
     }
 }
 
@@ -256,6 +288,7 @@ pub fn rankdef_case<T: Sc>(rng: &mut Rng, idx: usize) -> StateCase<T> {
         max_s: 3,
         allow_dup: false,
         smooth_only: false,
+        fixed_n: None,
     };
     let mut recipe = random_recipe(rng, &o);
     let j = rng.below(recipe.fns.len());
